@@ -148,6 +148,34 @@ def gen_bad(rng, st, spaces):
     return ["rename_cells", s, rng.choice(W.CELLS), rng.choice(["for", "_y", "r", "X"])]
 
 
+def gen_bad_obj(rng, live, spaces):
+    """the malformed stream, formulas given as OBJECTS (formula_objs): every API that accepts a formula, aimed at
+    targets that have something to lose - a cells holding inputs, a derived cells, a cells others were computed
+    from, a parametrised space with ItemSpaces.  Mostly objects modelx has a reason to refuse, sometimes ones it
+    accepts (the generator does not know which is which; the oracle judges what the operation did)."""
+    from . import formula_objs as FO
+    kind = rng.choice(FO.SUSPECT) if rng.random() < 0.75 else rng.choice(FO.KINDS)
+    cells = [(p, cn, c) for p, sp in spaces for cn, c in sp.cells.items()]
+    rich = [(p, cn, c) for p, cn, c in cells if c._impl.input_keys or c._is_derived()]
+    param = [p for p, sp in spaces if sp.formula is not None]
+    r = rng.random()
+    if r < 0.6 and cells:
+        p, cn, c = rng.choice(rich if rich and rng.random() < 0.7 else cells)
+        return ["set_formula_obj", p, cn, kind, rng.choice(FO.HOW[:3])]
+    if r < 0.75:
+        p, sp = rng.choice(spaces)
+        free = [n for n in W.CELLS if n not in sp.cells]
+        return ["new_cells_obj", p, rng.choice(free or W.CELLS), kind]
+    if r < 0.93:
+        p = rng.choice(param) if param and rng.random() < 0.8 else rng.choice(spaces)[0]
+        if rng.random() < 0.15:
+            return ["set_param", p, "BAD"]
+        return ["set_param_obj", p, kind, rng.choice(FO.HOW_SPACE)]
+    tops = set(live.m.spaces)
+    free = [n for n in W.TOP if n not in tops]
+    return ["new_space_obj", "-", rng.choice(free or W.TOP), [rng.choice(spaces)[0]] if rng.random() < 0.5 else [], kind]
+
+
 # ----------------------------------------------------------------------------- evaluation helpers
 
 def eval_everything(live, limit_spaces=None):
@@ -350,7 +378,7 @@ def gen_next(rng, live, cfg, prev=None, focus=None):
     if k == "new_space":
         nested = rng.random() < 0.35
         parent = rng.choice([p for p in paths if "." not in p] or ["-"]) if nested else "-"
-        pool = W.CHILD if parent != "-" else W.TOP
+        pool = W.CHILD if parent != "-" else cfg.get("top_names", W.TOP)
         taken = set(live.space(parent).spaces) if parent != "-" else set(live.m.spaces)
         free = [n for n in pool if n not in taken]
         nm = rng.choice(free) if free and rng.random() < 0.9 else rng.choice(pool)
@@ -434,6 +462,8 @@ def gen_next(rng, live, cfg, prev=None, focus=None):
         st = {"spaces": {p: {"cells": set(sp.cells), "refs": set(sp._own_refs),
                              "bases": [W.rel(live.m, b) for b in sp._direct_bases]} for p, sp in spaces}}
         return gen_bad(rng, st, paths)
+    if k == "bad_obj":
+        return gen_bad_obj(rng, live, spaces)
     if prev and rng.random() < 0.5:
         earlier = [o for o in prev if o[0] == "eval"]
         if earlier:
@@ -678,6 +708,33 @@ def refusal_family():
     return out
 
 
+def formula_object_family():
+    """[(label, ops)]: one program per kind of formula OBJECT (formula_objs.KINDS).  A base A with a cells f that
+    holds an input and a caller g, a sub space B deriving both (B.f holds an input of its own), a parametrised
+    space P (cells h, ItemSpaces P[0], P[1] built) - everything evaluated; then the object is offered through every
+    API that accepts a formula: to the DERIVED cells first, to the cells holding inputs (attribute, method,
+    decorator), to the caller, as the formula of a new cells, as the formula of the parametrised space (attribute,
+    method) and of a new space.  Inputs are assigned again between the requests, so that a target always has
+    something to lose.  Nothing about 'must be refused' is asserted: the property's hooks judge each request."""
+    from . import formula_objs as FO
+    pre = [["new_space", "-", "A", []], ["set_ref", "A", "s", 2], ["new_cells", "A", "f", F(2, 1, "f", "s")],
+           ["new_cells", "A", "g", F(1, 1, "f")], ["new_space", "-", "B", ["A"]],
+           ["new_space", "-", "P", []], ["new_cells", "P", "h", F(0, 3)], ["set_param", "P", 1]]
+    inputs = [["set_value", "A", "f", 1, 25], ["set_value", "B", "f", 2, 26]]
+    out = []
+    for kind in FO.KINDS:
+        ops = [list(o) for o in pre + inputs] + [["evalall"]]
+        ops.append(["set_formula_obj", "B", "f", kind, "attr"])
+        for how in FO.HOW[:3]:
+            ops += [list(o) for o in inputs] + [["evalall"], ["set_formula_obj", "A", "f", kind, how]]
+        ops += [["evalall"], ["set_formula_obj", "A", "g", kind, "method"], ["new_cells_obj", "A", "k", kind]]
+        for how in FO.HOW_SPACE:
+            ops += [["set_param", "P", 1], ["evalall"], ["set_param_obj", "P", kind, how]]
+        ops += [["new_space_obj", "-", "D", ["A"], kind], ["evalall"]]
+        out.append(("formula given as the object %r" % kind, ops))
+    return out
+
+
 def run_family(out, stats, fam, hooks_factory, cfg, what, max_failures=6):
     """run the programs of a scenario family through a property's hooks"""
     refused = 0
@@ -829,7 +886,8 @@ def replay_struct(payload, out, hooks_factory, cfg):
 
 EDIT_KINDS = ("new_cells_src", "set_param", "new_space", "del_space", "rename_space", "new_cells", "set_formula", "set_cached", "del_cells",
               "rename_cells", "add_bases", "remove_bases", "set_ref", "del_ref", "set_mref", "del_mref",
-              "set_value", "clear", "clear_all", "clear_at", "allow_none")
+              "set_value", "clear", "clear_all", "clear_at", "allow_none",
+              "new_cells_obj", "set_formula_obj", "set_param_obj", "new_space_obj")
 
 
 def fresh_replay(ops, upto, name="F"):
@@ -946,6 +1004,58 @@ MOTIFS_EXT = [
      ["new_cells", "C", "f", F(4, 1, "g", "r", "X")], ["new_cells", "C", "h", F(1, 2, "f")],
      ["new_space", "-", "B", []], ["set_ref", "B", "t", ["obj", "C.X.g"], "absolute"],
      ["new_cells", "B", "k", F(9, 1, "k", "t")]],
+    # a cells holding INPUTS (two argument keys) that is read from OTHER spaces by attribute paths going through
+    # its name: from a child space (`_space.parent.f(x)`), and from an unrelated space through a reference to the
+    # space (`X.f(x)`), with a chain above that caller; one caller in the cells' own space.  Nothing but the
+    # edges that leave the input elements ties the readers elsewhere to the cells
+    [["new_space", "-", "A", []], ["new_cells", "A", "f", F(0, 1)], ["set_value", "A", "f", 1, 25],
+     ["set_value", "A", "f", 0, 24], ["new_cells", "A", "g", F(1, 1, "f")],
+     ["new_space", "A", "X", []], ["new_cells", "A.X", "h", F(15, 2, "f")],
+     ["new_space", "-", "B", []], ["set_ref", "B", "X", ["obj", "A"], "absolute"],
+     ["new_cells", "B", "k", F(4, 1, "f", "r", "X")], ["new_cells", "B", "h", F(1, 2, "k")]],
+    # ONE cells (g, reading a reference of its space by name) SHARED by several callers: f in its own space,
+    # which also reads a reference of a child by attribute path (the only reader of it); h in its own space;
+    # k in another space, through an object-valued reference.  Each caller can be invalidated on its own
+    # (cleared, or - f - through the child's reference) while the others keep what they computed through g
+    [["new_space", "-", "C", []], ["set_ref", "C", "s", 2], ["new_space", "C", "X", []], ["set_ref", "C.X", "t", 7],
+     ["new_cells", "C", "g", F(2, 1, "g", "s")], ["new_cells", "C", "f", F(11, 1, "g", "t", "X")],
+     ["new_cells", "C", "h", F(1, 1, "g")],
+     ["new_space", "-", "B", []], ["set_ref", "B", "t", ["obj", "C.g"], "absolute"],
+     ["new_cells", "B", "k", F(9, 1, "k", "t")]],
+]
+
+
+# Asymmetric inheritance graphs: a space is reached from the top by paths of DIFFERENT lengths, and has sub spaces
+# of its own below the join.  Whatever order a re-derivation visits the spaces in (breadth-first over the edges,
+# topological, creation order), somewhere in these shapes a sub space is visited before one of its bases - a
+# re-derivation step whose outcome depends on what a not-yet-updated base still holds shows here and nowhere in
+# chains and symmetric diamonds.  Used by the properties that ask for them (cfg["extra_motifs"] = MOTIFS_DAG: C03, C13);
+# the members (a cells, a reference, a cells reading the reference) are defined at the very top or one below it.
+def dag_motif(edges, members_in="A", extra=()):
+    """spaces in the order given by `edges` = [(name, [bases])]; the members are defined in `members_in` AFTER the
+    whole graph exists (so that they arrive in every sub space by derivation), then `extra`"""
+    ops = [["new_space", "-", n, list(bs)] for n, bs in edges]
+    ops += [["new_cells", members_in, "f", F(0, 1)], ["set_ref", members_in, "s", 2],
+            ["new_cells", members_in, "g", F(2, 1, "g", "s")]]
+    return ops + [list(o) for o in extra]
+
+
+MOTIFS_DAG = [
+    # two paths of lengths 2 and 3 from the top A to the join E, a sub space G below the join with a cells of
+    # its own that calls a derived one:   A -> B -> E,  A -> C -> D -> E,  E -> G
+    dag_motif([("A", []), ("B", ["A"]), ("C", ["A"]), ("D", ["C"]), ("E", ["B", "D"]), ("G", ["E"])],
+              extra=[["new_cells", "G", "h", F(1, 1, "f")]]),
+    # the same below a top space that defines nothing: T -> A (the members live in A), so that detaching A from
+    # T or deleting T re-derives the whole graph without taking a definer away, and detaching / deleting A does;
+    # the long path is declared FIRST in the join, a second join H(E, B) and a chain G -> K below
+    dag_motif([("T", []), ("A", ["T"]), ("B", ["A"]), ("C", ["A"]), ("D", ["C"]), ("E", ["D", "B"]), ("G", ["E"]),
+               ("K", ["G"])],
+              extra=[["new_cells", "T", "k", F(0, 4)], ["new_cells", "K", "h", F(1, 1, "g")]]),
+    # three paths of lengths 1, 2, 3 to the join, the join's sub space also derives from the short path directly
+    #   A -> E (direct), A -> B -> E, A -> C -> D -> E;  G(E), H(G, B)
+    dag_motif([("A", []), ("B", ["A"]), ("C", ["A"]), ("D", ["C"]), ("E", ["D", "B", "A"]), ("G", ["E"]),
+               ("H", ["G", "B"])],
+              members_in="A", extra=[["set_formula", "C", "f", F(0, 2)], ["new_cells", "H", "h", F(1, 1, "f")]]),
 ]
 
 
@@ -1069,7 +1179,8 @@ def ref_edits_existing(live, edits):
 QUICK_FIRST = ("set_value", "clear", "clear_at", "set_cached", "set_formula")
 
 
-def ext_sequences(live, edits, rng, exhaustive, thorough=False, cap_pairs=24, cap_triples=6, cap_triples_ext=16):
+def ext_sequences(live, edits, rng, exhaustive, thorough=False, cap_pairs=14, cap_triples=6, cap_triples_ext=10,
+                  cap_pairs_ext=36):
     """the extended scenario families (each sequence is run after the motif program with everything
     evaluated, and followed by evaluating everything):
       * (clearing edit of one cells, edit of an existing reference): a reader of the reference is cleared,
@@ -1077,8 +1188,8 @@ def ext_sequences(live, edits, rng, exhaustive, thorough=False, cap_pairs=24, ca
         and a value assigned in the first step must survive unless it is the reference's own reader;
       * (reference edit, value assignment, edit of ANOTHER reference): an assigned value must not be
         discarded through edges its element had before it was cleared;
-    thorough tier: everything; quick tier: for the extended motifs every pair whose first edit is of the kinds
-    QUICK_FIRST and a seeded sample of the triples, for the base motifs a seeded sample of both"""
+    thorough tier: everything; quick tier: for the extended motifs a seeded sample of `cap_pairs_ext` pairs whose first
+    edit is of the kinds QUICK_FIRST and a seeded sample of the triples, for the base motifs a smaller sample of both"""
     refed = ref_edits_existing(live, edits)
     first = [e for e in edits if is_clearing(e)]
     pairs = [[a, b] for a in first for b in refed]
@@ -1088,7 +1199,10 @@ def ext_sequences(live, edits, rng, exhaustive, thorough=False, cap_pairs=24, ca
     if thorough:
         return pairs + triples
     if exhaustive:
+        # (every such pair until the families below were added; the pairs of one motif are highly redundant - each
+        # clearing kind x each reference edit - so a seeded sample of them pays for the new families)
         pairs = [p for p in pairs if p[0][0] in QUICK_FIRST]
+        pairs = rng.sample(pairs, min(len(pairs), cap_pairs_ext))
     else:
         pairs = rng.sample(pairs, min(len(pairs), cap_pairs))
     cap = cap_triples_ext if exhaustive else cap_triples
@@ -1096,7 +1210,7 @@ def ext_sequences(live, edits, rng, exhaustive, thorough=False, cap_pairs=24, ca
     return pairs + triples
 
 
-def input_sequences(live, edits, rng, thorough=False, cap=10):
+def input_sequences(live, edits, rng, thorough=False, cap=6):
     """the family "an INPUT, then the cells is redefined, evaluated again, then its namespace changes":
       [assign a value to one element of a cached cells;
        redefine that cells - a new formula (constant / reading a reference by name), a new name, the cache flag
@@ -1143,6 +1257,96 @@ def input_sequences(live, edits, rng, thorough=False, cap=10):
     return seqs
 
 
+def free_cells_name(s, avoid=()):
+    for n in W.CELLS:
+        if n not in s.cells and n not in avoid:
+            return n
+    return None
+
+
+def rename_sequences(live, edits, rng, exhaustive, thorough=False, cap=1):
+    """the family "a cells that holds an INPUT is renamed, and its old name is used again":
+      [assign a value to one element of a defined cached cells; evaluate everything (whatever reads the cells - by
+       name, through a reference to the cells or to its space, by an attribute path from a child or any other space -
+       now holds values computed from the input); rename the cells;
+       (nothing more | a NEW cells gets the old name, at once or after everything was evaluated again)]
+    followed, like every sequence, by evaluating everything.  A path that went through the old name resolves to
+    nothing, or to the new cells: nothing computed from the input under the old name may survive.
+    Quick tier: everything after the extended motifs (`exhaustive`), a seeded sample of `cap` cells after the others."""
+    seqs = []
+    n = 0
+    for path, s in W.all_spaces(live.m):
+        for cn, c in s.cells.items():
+            n += 1
+            if c._is_derived() or not c.is_cached:
+                continue
+            new = free_cells_name(s)
+            if new is None:
+                continue
+            assign = [["set_value", path, cn, 1, 60 + n], ["evalall"]]
+            ren = ["rename_cells", path, cn, new]
+            again = ["new_cells", path, cn, F(0, 9)]
+            seqs.append([assign + [ren], assign + [ren, again], assign + [ren, ["evalall"], again]])
+    if not (thorough or exhaustive):
+        seqs = rng.sample(seqs, min(len(seqs), cap))
+    return [x for grp in seqs for x in grp]
+
+
+def shared_callee_sequences(live, edits, uncache=False, with_names=False):
+    """the family "a cells SHARED by several callers; ONE caller is invalidated on its own; then an edit that must
+    reach the others through the shared cells".  Read off the dependency graph of the live model (every cells
+    cached, everything evaluated): U is shared when elements of at least two other cells were computed from elements
+    of U.  For each caller A of U:
+      first  = a way to discard what A holds and nothing else: `clear A`, `clear_at A 1`, or a change of a
+               reference that, of all the cells, only A reads by attribute path (reference graph);
+      second = an edit that must reach the values computed through U: a new formula of U (constant / reading a
+               reference), U deleted, U renamed, a change or deletion of a reference U's formula mentions and U's
+               space sees.
+    uncache: the sequence starts with `set_cached U 0; evalall` (for the properties whose histories carry the flags
+    themselves); otherwise the flags come from outside (C09's assignments).  with_names: [(name of U, sequence)]."""
+    import re
+    where = {}
+    for path, sp in W.all_spaces(live.m):
+        for cn, c in sp.cells.items():
+            where[id(c._impl)] = (path, cn, c, sp)
+    callers = collections.defaultdict(dict)
+    for a, b in live.m._impl.tracegraph.edges:
+        if a[0] is not b[0] and id(a[0]) in where and id(b[0]) in where:
+            callers[id(a[0])][id(b[0])] = True
+    readers = collections.defaultdict(set)      # (space path, reference name) -> cells that read it by attribute path
+    for r, node in live.m._impl.refgraph.edges:
+        try:
+            rp = W.rel(live.m, r.parent.interface) if hasattr(r.parent, "interface") and r.parent is not live.m._impl else None
+        except Exception:   # noqa
+            rp = None
+        if rp is not None and id(node[0]) in where:
+            readers[(rp, r.name)].add(id(node[0]))
+    seqs = []
+    for u, cs in callers.items():
+        if len(cs) < 2:
+            continue
+        pu, nu, cu, su = where[u]
+        if cu._is_derived():
+            continue
+        src = cu.formula.source if cu.formula is not None else ""
+        words = set(re.findall(r"[A-Za-z_]\w*", src or ""))
+        lin = [pu] + [W.rel(live.m, b) for b in su.bases]
+        new = free_cells_name(su)
+        seconds = [e for e in edits if e[0] == "set_formula" and e[1:3] == [pu, nu]]
+        seconds += [["del_cells", pu, nu]] + ([["rename_cells", pu, nu, new]] if new else [])
+        seconds += [e for e in edits if (e[0] in ("set_ref", "del_ref") and e[1] in lin and e[2] in words)
+                    or (e[0] in ("set_mref", "del_mref") and e[1] in words)]
+        for a in cs:
+            pa, na, ca, _ = where[a]
+            firsts = [["clear", pa, na], ["clear_at", pa, na, 1]]
+            firsts += [e for e in edits if e[0] == "set_ref" and readers.get((e[1], e[2])) == {a}]
+            pre = [["set_cached", pu, nu, 0], ["evalall"]] if uncache else []
+            for f in firsts:
+                for sec in seconds:
+                    seqs.append((nu, pre + [f, sec]) if with_names else pre + [f, sec])
+    return seqs
+
+
 def enumerate_edits(ctx, out, prop, hooks_factory, cfg, stats, quick_per_motif=16, pairs_per_motif=6):
     """small-scope exhaustive part: after every motif program (everything evaluated), every
     applicable single edit (quick tier: a seeded sample), followed by evaluating everything
@@ -1156,7 +1360,7 @@ def enumerate_edits(ctx, out, prop, hooks_factory, cfg, stats, quick_per_motif=1
         if not m:
             continue
         programs.append((mi, m, False))
-        if cfg.get("uncached_variants"):
+        if cfg.get("uncached_variants") and m not in MOTIFS_DAG:
             for vi, v in enumerate(uncached_variants(m)):
                 programs.append(("%s.u%d" % (mi, vi), v, True))
     for mi, m, variant in programs:
@@ -1180,7 +1384,14 @@ def enumerate_edits(ctx, out, prop, hooks_factory, cfg, stats, quick_per_motif=1
                     inseqs = input_sequences(live, edits, ctx.rng("enum-input", prop, mi),
                                              thorough=ctx.tier == "thorough")
                     stats["enumerated_input_sequences"] += len(inseqs)
-                    extseqs = extseqs + inseqs
+                    renseqs = rename_sequences(live, edits, ctx.rng("enum-rename", prop, mi), exhaustive=is_ext_motif,
+                                               thorough=ctx.tier == "thorough")
+                    stats["enumerated_rename_sequences"] += len(renseqs)
+                    shseqs = shared_callee_sequences(live, edits, uncache=True)
+                    if ctx.tier != "thorough":
+                        shseqs = ctx.rng("enum-shared", prop, mi).sample(shseqs, min(len(shseqs), cfg.get("shared_cap", 12)))
+                    stats["enumerated_shared_callee_sequences"] += len(shseqs)
+                    extseqs = extseqs + inseqs + renseqs + shseqs
                 refed = ref_edits_existing(live, edits) if is_ext_motif else []
         finally:
             live.close()
@@ -1191,18 +1402,23 @@ def enumerate_edits(ctx, out, prop, hooks_factory, cfg, stats, quick_per_motif=1
             edits = [e for e in edits if e[0] != "set_value"]
         extra = isinstance(mi, int) and mi >= nbase
         per = quick_per_motif if not variant else 4
-        if extra and cfg.get("extra_light"):
+        # the asymmetric inheritance graphs are large (7-8 spaces, 180-360 single edits): in the quick tier the edits
+        # that take a definer or a base relation away (cfg["enum_always"]) and a small sample of the others, no pairs;
+        # in the thorough tier every single edit and a sample of the structured pairs; no uncached variants
+        is_dag = m in MOTIFS_DAG
+        dag = is_dag and ctx.tier != "thorough"
+        if (extra and cfg.get("extra_light")) or dag:
             per = 6
         chosen = edits if ctx.tier == "thorough" else rng.sample(edits, min(len(edits), per))
         chosen = chosen + [e for e in refed if e not in chosen]     # extended motifs: every edit of an existing reference
         chosen = chosen + [e for e in edits if e[0] in cfg.get("enum_always", ()) and e not in chosen]
-        if extra:
+        if extra and not dag:
             # a property's own motifs: also every edit of the kinds it names (e.g. adding ONE base anywhere)
             chosen = chosen + [e for e in edits if e not in chosen and any(pred(e) for pred in cfg.get("extra_always", ()))]
         seqs = [[e] for e in chosen]
         if variant:
             stats["uncached_variant_programs"] += 1
-        light = (variant or (extra and cfg.get("extra_light"))) and ctx.tier != "thorough"
+        light = (variant or dag or (extra and cfg.get("extra_light"))) and ctx.tier != "thorough"
         for _ in range(0 if light else pairs_per_motif * (4 if ctx.tier == "thorough" else 1)):
             seqs.append([rng.choice(edits), ["evalall"], rng.choice(edits)])
         # structured pairs: a value edit / clear of one element, then a reference or base edit
@@ -1210,10 +1426,13 @@ def enumerate_edits(ctx, out, prop, hooks_factory, cfg, stats, quick_per_motif=1
         second = [e for e in edits if e[0] in ("set_ref", "del_ref", "set_mref", "remove_bases", "add_bases", "new_space")]
         if first and second and not light:
             allpairs = [[a, b] for a in first for b in second]
-            for pr in (allpairs if ctx.tier == "thorough" else rng.sample(allpairs, min(len(allpairs), 10))):
+            # (the extended families hold the (clearing edit, reference edit) pairs already: a smaller sample here)
+            for pr in (allpairs if ctx.tier == "thorough" and not is_dag else
+                       rng.sample(allpairs, min(len(allpairs), 60 if is_dag else 4 if ext else 10))):
                 seqs.append(pr)
-        # a base edit followed by an unrelated structural edit (orders must survive graph copies)
-        for e in [e for e in edits if e[0] == "add_bases" and len(e[2]) == 2][:(99 if ctx.tier == "thorough" else 4 if not light else 0)]:
+        # a base edit followed by an unrelated structural edit (orders must survive graph copies) - a matter of the
+        # structural properties, not run in the quick tier of the value properties (`ext`)
+        for e in [e for e in edits if e[0] == "add_bases" and len(e[2]) == 2][:((12 if is_dag else 99) if ctx.tier == "thorough" else 4 if not (light or ext) else 0)]:
             seqs.append([e, ["new_space", "-", "D" if not any(p == "D" for p in [x[2] for x in m if x[0] == "new_space"]) else "B", []]])
         seqs += extseqs
         stats["enumerated_ext_sequences"] += len(extseqs)
